@@ -214,6 +214,111 @@ fn policy_predicate(report: &Report, cli: &Cli) {
     report.set_extra("policy_accepting_cases", json!(accepted.load(std::sync::atomic::Ordering::Relaxed)));
 }
 
+/// Byte strings near a valid signature: longer (a valid signature followed by anything), shorter, empty.
+/// None of them is a valid signature, whatever its first 64 bytes are.
+fn signature_shapes(valid: &[u8]) -> Vec<(&'static str, Vec<u8>)> {
+    let mut out: Vec<(&'static str, Vec<u8>)> = vec![];
+    let with = |tail: &[u8]| -> Vec<u8> { valid.iter().chain(tail).copied().collect() };
+    out.push(("valid + 00", with(&[0])));
+    out.push(("valid + ff", with(&[0xFF])));
+    out.push(("valid + valid", with(valid)));
+    out.push(("valid + 1000 bytes", with(&[0xA5; 1000])));
+    out.push(("valid + 64 zero bytes", with(&[0; 64])));
+    out.push(("first 63 bytes", valid[..63].to_vec()));
+    out.push(("first 32 bytes", valid[..32].to_vec()));
+    out.push(("last 63 bytes", valid[1..].to_vec()));
+    out.push(("00 + valid", [0u8].iter().chain(valid).copied().collect()));
+    out.push(("empty", vec![]));
+    out
+}
+
+/// Signature *shapes*: in a sufficient, fully valid signature set each single signature is replaced by
+/// each byte string of `signature_shapes`; every result must be refused - by the data-level and the
+/// transaction-level verifiers, before and after a trip through the wire format (the signature carries
+/// its own length there), for plain and sponsored transactions, and by the per-key check of chain updates.
+fn signature_shape_layer(report: &Report, cli: &Cli) {
+    let all_creds = [0u8, 1, 255];
+    let all_keys = [0u8, 1, 255];
+    let keys = make_keys(cli.seed + 5, &all_creds, &all_keys);
+    let data = Sha256::digest(b"the message").to_vec();
+    let hash = concordium_base::hashes::TransactionSignHash::new(<[u8; 32]>::try_from(&data[..]).unwrap());
+    let n = cred_menu().len();
+    let mut structs: Vec<(Vec<(u8, usize)>, u8)> = vec![];
+    for a in 0..n {
+        structs.push((vec![(0u8, a)], 1));
+        structs.push((vec![(0, a), (1, a), (255, a)], 2));
+    }
+    for s in &structs {
+        // thresholds above the number of keys cannot be met at all
+        if s.0.iter().any(|(_, e)| cred_menu()[*e].0.len() < cred_menu()[*e].1 as usize) {
+            continue;
+        }
+        let acc = build_structure(&keys, s);
+        let mut full: BTreeMap<CredentialIndex, BTreeMap<KeyIndex, Signature>> = BTreeMap::new();
+        for (c, e) in &s.0 {
+            for k in &cred_menu()[*e].0 {
+                full.entry(CredentialIndex { index: *c }).or_default().insert(KeyIndex(*k), keys.registered[&(*c, *k)].sign(&data).into());
+            }
+        }
+        case(report, json!({"signature_shapes": {"structure": format!("{s:?}"), "what": "all keys sign"}}), || {
+            if !verify_data_signature(&acc, &data, &full) || !verify_signature_transaction_sign_hash(&acc, &hash, &TransactionSignature { signatures: full.clone() }) {
+                return fail("authorised-signature-set-rejected", json!({}));
+            }
+            Ok(())
+        });
+        for (c, e) in &s.0 {
+            for k in &cred_menu()[*e].0 {
+                let valid: Signature = full[&CredentialIndex { index: *c }][&KeyIndex(*k)].clone();
+                for (name, bytes) in signature_shapes(&valid.sig) {
+                    case(report, json!({"signature_shapes": {"structure": format!("{s:?}"), "slot": [c, k], "shape": name}}), || {
+                        let mut m = full.clone();
+                        m.get_mut(&CredentialIndex { index: *c }).unwrap().insert(KeyIndex(*k), Signature { sig: bytes.clone() });
+                        report.trace(1);
+                        if verify_data_signature(&acc, &data, &m) {
+                            return fail("unauthorised-signature-set-accepted", json!({"function": "verify_data_signature"}));
+                        }
+                        let ts = TransactionSignature { signatures: m };
+                        if verify_signature_transaction_sign_hash(&acc, &hash, &ts) {
+                            return fail("unauthorised-signature-set-accepted", json!({"function": "verify_signature_transaction_sign_hash"}));
+                        }
+                        // through the wire: whatever decodes must still be refused
+                        let b = to_bytes(&ts);
+                        if let Ok(back) = from_bytes::<TransactionSignature, _>(&mut &b[..]) {
+                            if verify_signature_transaction_sign_hash(&acc, &hash, &back) {
+                                return fail("unauthorised-signature-set-accepted", json!({"function": "verify_signature_transaction_sign_hash after decoding"}));
+                            }
+                        }
+                        // the key itself
+                        if VerifyKey::from(keys.registered[&(*c, *k)].public()).verify(&data, &Signature { sig: bytes.clone() }) {
+                            return fail("malformed-signature-verifies-under-key", json!({}));
+                        }
+                        Ok(())
+                    });
+                }
+            }
+        }
+    }
+    // chain update keys
+    let kp = UpdateKeyPair::generate(&mut rng(cli.seed, 6990));
+    let pk = UpdatePublicKey::from(&kp);
+    let h: [u8; 32] = Sha256::digest(b"update body").into();
+    let valid = kp.sign(&h);
+    case(report, json!({"signature_shapes": "update key, valid"}), || {
+        if !pk.public.verify(h, &valid) {
+            return fail("update-signature-not-over-documented-digest", json!({}));
+        }
+        Ok(())
+    });
+    for (name, bytes) in signature_shapes(&valid.sig) {
+        case(report, json!({"signature_shapes": {"update key": name}}), || {
+            if pk.public.verify(h, &Signature { sig: bytes.clone() }) {
+                return fail("malformed-signature-verifies-under-key", json!({"what": "update key"}));
+            }
+            Ok(())
+        });
+    }
+}
+
 fn addr(b: u8) -> AccountAddress { AccountAddress([b; 32]) }
 
 fn fixtures(num_sigs: u32, nonce: u64, expiry: u64) -> Vec<(&'static str, construct::PreAccountTransaction, u64)> {
@@ -596,6 +701,7 @@ fn signers(report: &Report, cli: &Cli) {
 pub fn run(cli: &Cli) -> ! {
     let report = Report::new(cli);
     policy_predicate(&report, cli);
+    signature_shape_layer(&report, cli);
     signers(&report, cli);
     digest_binding_and_formulas(&report, cli);
     chain_updates(&report, cli);
@@ -604,7 +710,7 @@ pub fn run(cli: &Cli) -> ! {
     report.transition(report.traces.load(std::sync::atomic::Ordering::Relaxed));
     report.sample(json!({"structure": {"credentials": [{"index": 0, "keys": [0, 1], "threshold": 2}, {"index": 1, "keys": [0], "threshold": 1}], "account_threshold": 2}, "signatures": [[0, 0, "Valid"], [0, 1, "OtherKey"], [1, 0, "Valid"]], "expected": false}));
     report.sample(json!({"fixture": "transfer_with_memo", "bit_flip_of_body": 133, "expected": "does not verify"}));
-    report.set_technique("exhaustive enumeration of access structures x signature maps (each slot absent / valid / valid for another message / valid under another key / bit-flipped, <=3/4 populated slots) against the 4-line threshold policy; complete bit-flip neighbourhood of header||payload and of the signature part for every payload fixture and header alphabet; recomputation of digests, sizes and energies from bytes; all signer sequences for chain updates");
+    report.set_technique("exhaustive enumeration of access structures x signature maps (each slot absent / valid / valid for another message / valid under another key / bit-flipped, <=3/4 populated slots) against the 4-line threshold policy; complete bit-flip neighbourhood of header||payload and of the signature part for every payload fixture and header alphabet; recomputation of digests, sizes and energies from bytes; all signer sequences for chain updates; every signature of a sufficient set replaced by over-long / truncated / empty byte strings around it");
     report.set_rule("one case = one (structure, signature map) pair, one fixture with all its bit flips, or one update signer sequence; non-trivial = accepting (structure, map) pairs");
     report.assume("thresholds 1..3 and index values {0,1,255} stand for the full 1..255 range; the library has no verifier for update instructions, so for updates the signer selection and the per-key signatures over the documented digest are checked");
     report.finish(true, json!({"max_populated_slots": if cli.tier == Tier::Quick { 3 } else { 4 }}));
